@@ -317,9 +317,14 @@ def run_reduce_steps(prop, tier, names, R: Result, timeout=900):
     samples = []
     jobs = []
     for nm in names:
-        path = os.path.join(E1_CORPUS, nm + '.kiki')
+        if isinstance(nm, tuple):
+            nm, path = nm
+        else:
+            path = os.path.join(E1_CORPUS, nm + '.kiki')
         P = prepare_grammar(nm, path, 'e1step')
         if P.error:
+            if P.gen.get('status') == 'err' and P.gen['err']['variant'] == 'TableConflict':
+                continue        # generate rejected the grammar: nothing emitted
             R.inconclusive.append('E1-step %s: %s' % (nm, P.error))
             continue
         try:
